@@ -2,7 +2,7 @@
 """tools/sccshow.py <replay.json | input id via groupfail> : print program and observed captions"""
 import json, sys, warnings
 warnings.filterwarnings("ignore")
-sys.path.insert(0, "/verif"); sys.path.insert(0, "/repo")
+sys.path.insert(0, "/verif"); import os; sys.path.insert(0, os.environ.get("VERIF_REPO", "/repo"))
 from harness import sccgen
 import pycaption
 d = json.load(open(sys.argv[1]))
